@@ -69,20 +69,27 @@ func vhBuildLong(ctx int, s []byte) vhCtx {
 			vbFixedSym(tail, 'x')
 		}
 		vbFixedSym(tail, 256)
-	case 2, 3:
+	case 2, 3, 5:
 		t := 2
 		if ctx == 3 {
 			t = 5
 		}
+		if ctx == 5 {
+			t = 17 // length 258 and end-of-block on 15-bit (long-table) codes
+		}
 		lit, dist := vhTemplate(t)
 		d := vbDynHeader(w, true, lit, dist, false)
-		if ctx == 3 {
+		if ctx == 3 || ctx == 5 {
 			d.sym(w, 97)
 			d.sym(w, 97)
 			c.preOut = 2
 		}
+		ts := 97
+		if ctx == 5 {
+			ts = 98 // 'a' has a 1-bit code in template 17: use the 2-bit literal for the tail
+		}
 		for i := 0; i < 200; i++ {
-			d.sym(tail, 97)
+			d.sym(tail, ts)
 		}
 		d.sym(tail, 256)
 	}
@@ -98,7 +105,7 @@ func vhBuildLong(ctx int, s []byte) vhCtx {
 // level 0 (Go loop) and level 3 (decode_amd64.go dispatch + decodeHuffmanAsmArchV3
 // executed from the current decode_amd64.s).
 func VerifAsmDiff() {
-	ctx := verifrt.Pick("ctx", 5)
+	ctx := verifrt.Pick("ctx", 6)
 	n := verifrt.Param("N")
 	M := verifrt.Param("M")
 	s := verifrt.Bytes(n)
@@ -107,6 +114,12 @@ func VerifAsmDiff() {
 	if ctx == 4 {
 		// keep the window to what matters here: short-distance matches crossing the limit
 		ro.distCap = 2
+	}
+	if ctx == 5 {
+		// 1-bit literal code: at most two literals may start inside the window
+		ro.litCap = 2
+		ro.capFrom = c.symStart
+		ro.capTo = c.symStart + 8*n
 	}
 	ref := refInflate(c.stream, ro)
 	verifrt.Assume(ref.status != refTooLong && ref.status != refSkip)
